@@ -2,10 +2,11 @@ import BqVerif.Proofs.Rules
 import BqVerif.Proofs.RulesParam
 import BqVerif.Proofs.RulesComplex
 import BqVerif.Proofs.Accept
-import BqVerif.Model.AcceptGrid
+import BqVerif.Proofs.AcceptGrid
 import BqVerif.Proofs.Structural
 import BqVerif.Proofs.Walsh
 import BqVerif.Proofs.Demultiplex
+import BqVerif.Proofs.BlockZXZ
 /-! # C10 — every circuit-rewriting pass preserves its target within stated tolerance
 
 Four classes (DESIGN.md §4 C10, design_notes/C10.md):
@@ -189,21 +190,75 @@ example : (scan (fun _ => ()) (fun _ _ => true) (fun _ => true) [0, 1, 2]
 example : (scan (fun _ => ()) (fun _ _ => false) (fun _ => true) [0, 1, 2]
     ([(0, 'a'), (1, 'b'), (2, 'c')], ())).1 = [(0, 'a'), (1, 'b'), (2, 'c')] := by decide
 
-/-! ### known finding: the tree scan's cycle shift when scanning right to left
+/-! ### the tree scan's cycle arithmetic (code after fix 513afaa)
 
-`Model/AcceptGrid.lean` transcribes `get_tree_circs` with the code's cycle arithmetic (the harness
-compares it with the real function call by call, IndexErrors included). On the circuit
-`[U@0 | V@(1,0) | W@1 | X@1]` (tags 0–3, one operation per cycle) and the right-to-left chunk
-X, W the candidate meant to drop X and W drops X and V instead, and with the chunk X, W, V the
-function raises. Scanning left to right the same function returns exactly the subsets. -/
+`Model/AcceptGrid.lean` transcribes `get_tree_circs` on the cycle grid with the code's index
+arithmetic and `Circuit.pop`'s IndexErrors (`none`); the harness compares it with the real function
+call by call. In a well-formed circuit, for BOTH scan directions, every pop addresses the operation
+the iteration is looking at: the function never raises and returns exactly the circuits with each
+subset of the chunk deleted (in the code's order, before the stable sort). Before the fix the
+right-to-left scan used the left-to-right shift and popped a wrong operation or raised. -/
 
 open BqVerif.AcceptGrid in
-theorem C10_treescan_right_shift_witness :
-    let g : Grid := [[⟨0, [0]⟩], [⟨1, [1, 0]⟩], [⟨2, [1]⟩], [⟨3, [1]⟩]]
-    (getTreeCircs 4 g [⟨3, 1⟩, ⟨2, 1⟩]).map (·.map tags) = some [[0, 2], [0, 1, 2], [0, 1, 3]] ∧
-    getTreeCircs 4 g [⟨3, 1⟩, ⟨2, 1⟩, ⟨1, 1⟩] = none ∧
-    (getTreeCircs 4 g [⟨0, 0⟩, ⟨1, 1⟩]).map (·.map tags) = some [[2, 3], [1, 2, 3], [0, 2, 3]] := by
-  decide
+/-- One pop: `g` well formed, operation `o` (tag not yet deleted) in cycle `c`, `q` one of its qudits,
+the tags `D` deleted so far all in cycles the scan has passed or is in (`region` = the cycles not yet
+reached: after `c` scanning left to right, before `c` scanning right to left). -/
+theorem C10_treescan_pop_intended (left : Bool) (g : Grid) (wf : WF g) (c : Nat) (cy : List GOp)
+    (o : GOp) (q : Nat) (D : List Nat) (hc : g[c]? = some cy) (ho : o ∈ cy) (hq : q ∈ o.loc)
+    (hoD : o.tag ∉ D) (hD : ∀ t ∈ D, t ∉ tags (region left g c)) :
+    popShift left g.length (del D g) ⟨c, q⟩ = some (del (o.tag :: D) g) :=
+  popShift_wf left g wf c cy o q D hc ho hq hoD hD
+
+open BqVerif.AcceptGrid in
+/-- The whole loop of `get_tree_circs` for a chunk in scan order. -/
+theorem C10_treescan_tree_circs (left : Bool) (g : Grid) (wf : WF g) (ch : List Elem)
+    (D0 : List Nat) (hch : ChunkOk left g ch) (hds : DsOk left g ch [D0]) :
+    treeCircs left g.length (del D0 g) (ch.map fun x => ⟨x.1, x.2.2⟩) =
+      some ((subsetsCode D0 (ch.map fun x => x.2.1.tag)).map fun D => del D g) :=
+  treeCircs_spec left g wf ch D0 hch hds
+
+namespace TreeScanExample
+open BqVerif.AcceptGrid
+/-- The reproducer of the former finding: `[U@0 | V@(1,0) | W@1 | X@1]`, chunk X, W, V from the right. -/
+def g : Grid := [[⟨0, [0]⟩], [⟨1, [1, 0]⟩], [⟨2, [1]⟩], [⟨3, [1]⟩]]
+def ch : List Elem := [(3, ⟨3, [1]⟩, 1), (2, ⟨2, [1]⟩, 1), (1, ⟨1, [1, 0]⟩, 1)]
+
+private theorem wf : WF g := by
+  refine ⟨by decide, by decide, ?_⟩
+  intro cy hcy x hx x' hx' q _ _
+  simp only [g, List.mem_cons, List.not_mem_nil, or_false] at hcy
+  rcases hcy with rfl | rfl | rfl | rfl <;> simp_all
+
+private theorem chOk : ChunkOk false g ch := by
+  refine ⟨?_, by decide, by decide⟩
+  intro x hx
+  simp only [ch, List.mem_cons, List.not_mem_nil, or_false] at hx
+  rcases hx with rfl | rfl | rfl
+  · exact ⟨[⟨3, [1]⟩], rfl, by simp, by simp⟩
+  · exact ⟨[⟨2, [1]⟩], rfl, by simp, by simp⟩
+  · exact ⟨[⟨1, [1, 0]⟩], rfl, by simp, by simp⟩
+
+private theorem dsOk : DsOk false g ch [[]] := by
+  intro D hD
+  rw [List.mem_singleton.mp hD]
+  constructor
+  · intro y _ h
+    exact absurd h List.not_mem_nil
+  · intro y _ t h
+    exact absurd h List.not_mem_nil
+
+/-- Non-vacuity of both theorems, on the input that used to raise IndexError. -/
+example : treeCircs false 4 g [⟨3, 1⟩, ⟨2, 1⟩, ⟨1, 1⟩] =
+    some ((subsetsCode [] [3, 2, 1]).map fun D => del D g) :=
+  C10_treescan_tree_circs false g wf ch [] chOk dsOk
+
+example : (getTreeCircs false 4 g [⟨3, 1⟩, ⟨2, 1⟩, ⟨1, 1⟩]).map (·.map tags) =
+    some [[0], [0, 1], [0, 2], [0, 3], [0, 1, 2], [0, 1, 3], [0, 2, 3]] := by decide
+
+example : popShift false 4 (del [3] g) ⟨2, 1⟩ = some (del [2, 3] g) :=
+  C10_treescan_pop_intended false g wf 2 [⟨2, [1]⟩] ⟨2, [1]⟩ 1 [3] rfl (by simp) (by simp)
+    (by decide) (by decide)
+end TreeScanExample
 
 /-! ### structural passes -/
 
@@ -302,5 +357,32 @@ theorem C10_qsd_demultiplex {M : Type} [Monoid M] (u1 u2 u2d v vd d dd : M)
 /-- Non-vacuity: in ℤ, u₁ = u₂ = v = 1 and the non-trivial square root d = d† = −1 of u₁u₂†. -/
 example : (1 : ℤ) = 1 * -1 * (-1 * 1 * 1) ∧ (1 : ℤ) = 1 * -1 * (-1 * 1 * 1) :=
   C10_qsd_demultiplex 1 1 1 1 1 (-1) (-1) (by decide) (by decide) (by decide) (by decide)
+
+/-! ### Block-ZXZ: the initial decomposition (eqs 5–9 of Krol & Al-Ars) -/
+
+open BqVerif.BlockZXZ in
+/-- `BlockZXZPass.initial_decompose`: with the polar factors `X = S_X U_X`, `Y = S_Y U_Y` of the upper
+blocks of a unitary `[[X, Y], [U21, U22]]` (`S_X S_Y = S_Y S_X`, `S_X² + S_Y² = 1`,
+`U21 X† + U22 Y† = 0`), the code's `A₁ = (S_X + i S_Y) U_X`, `C = −i U_X† U_Y`, `A₂ = U21 + U22 C†` and
+`P = A₁† X = ½(1 + B)` satisfy `A₁A₁† = 1` and
+`[[X, Y], [U21, U22]] = diag(A₁, A₂) · [[P, 1−P], [1−P, P]] · diag(1, C)` block by block — the matrix
+`[[P, 1−P], [1−P, P]] = ½[[1+B, 1−B], [1−B, 1+B]]` is H·(controlled B)·H on the top qubit.
+Any ring with a central `i`, `i² = −1`. -/
+theorem C10_bzxz_initial_decompose {R : Type} [Ring R]
+    {i X Y U21 U22 SX SY UX UXd UY UYd : R} (h : Setup i X Y U21 U22 SX SY UX UXd UY UYd) :
+    let A1 := (SX + i * SY) * UX
+    let A1d := UXd * (SX - i * SY)
+    let A2 := U21 + U22 * (i * (UYd * UX))
+    let C := -(i * (UXd * UY))
+    let P := A1d * X
+    A1 * A1d = 1 ∧ A1 * P = X ∧ A1 * (1 - P) * C = Y ∧ A2 * (1 - P) = U21 ∧ A2 * P * C = U22 :=
+  ⟨a1_unitary h, block_x h, block_y h, block_21 h, block_22 h⟩
+
+open BqVerif.BlockZXZ in
+/-- Non-vacuity: the complex numbers, U = identity (X = 1, Y = 0, U21 = 0, U22 = 1; S_X = 1, S_Y = 0). -/
+example : Setup (Complex.I : ℂ) 1 0 0 1 1 0 1 1 1 1 :=
+  { ii := Complex.I_mul_I, central := fun a => mul_comm a _, ux := by simp, uxd := by simp,
+    uyd := by simp, comm := by simp, sq := by simp, hX := by simp, hY := by simp,
+    orth := by simp }
 
 end BqVerif.C10
